@@ -36,12 +36,18 @@ def case(draw, tier):
     a = draw(st.integers(0, 10))
     b = draw(st.integers(0, 10 - a))
     tps = draw(st.sampled_from([10, 100, 1, 1000, 3, 7, 100000, 60, 48000, 91000, 700]))
-    mode = draw(st.sampled_from(["structure", "freq", "ops", "gap", "shift"]))
+    mode = draw(st.sampled_from(["structure", "freq", "ops", "gap", "shift", "structure", "freq", "ops", "gap", "shift", "rare"]))
     params = {"ticks_per_second": tps, "random_seed": draw(st.integers(0, 2 ** 31 - 1)),
               "waiting_seconds_mean": draw(st.sampled_from([1.0, 0.5, 2.5, 10.0, 0.01, 60.0, 7.25, 1.5])),
               "num_pipelines": draw(st.sampled_from([4, 1, 2, 3, 7, 12])), "num_operators": draw(st.sampled_from([5, 1, 2, 3, 8, 20])),
               "num_segs": 1, "cpu_io_ratio": draw(st.sampled_from([0.5, 0.0, 1.0, 0.25, 0.75, 0.9])),
               "interactive_prob": a / 10, "query_prob": b / 10, "batch_prob": (10 - a - b) / 10}
+    if mode == "rare":
+        # tens of thousands of operator-count draws with a wide spread: the tails of the draw (0, negative) are reached
+        params["num_operators"] = draw(st.sampled_from([40, 100]))
+        params["num_pipelines"] = 12
+        params["waiting_seconds_mean"] = 1 / tps
+        params["query_prob"], params["interactive_prob"], params["batch_prob"] = 0.0, 0.5, 0.5
     if mode == "gap":
         # a mean of 50 .. 1500 ticks, incl. fractional seconds
         w, t = draw(st.sampled_from([(0.5, 100), (1.5, 100), (2.5, 40), (7.25, 200), (10.0, 10), (60.0, 5), (2.5, 100), (1.5, 40),
@@ -64,7 +70,10 @@ def case(draw, tier):
         params["num_operators"] = draw(st.sampled_from([5, 3, 8]))
         params["waiting_seconds_mean"] = 1.0
         params["ticks_per_second"] = 10
-    return {"params": params, "mode": mode}
+    case_ = {"params": params, "mode": mode}
+    if mode == "rare":
+        case_["events"] = 150 if tier == "quick" else 600
+    return case_
 
 
 def strategy(tier):
@@ -168,7 +177,10 @@ def run_case(spec):
         out.label("certain_class")
     wticks = params["waiting_seconds_mean"] * tps
     try:
-        if mode == "structure":
+        if mode == "rare":
+            events, t = run_events(params, spec.get("events", 150), 200000, P)
+            out.extra_evals = sum(len(ps) for _, ps in events)
+        elif mode == "structure":
             events, t = run_events(params, 60, 200000, P)
             out.extra_evals = len(events)
             ticks = [e[0] for e in events]
